@@ -199,9 +199,23 @@ def _odd_work(units):
     return acc.out()
 
 
+def _flag_work(units):
+    """(in a child interpreter with -O) the argument validation must not live in asserts"""
+    out = _work([(v, kind) for v, kind in units])
+    out["outcomes"] = [str(o) for o in out["outcomes"]]
+    return out
+
+
 def run(res, tier):
+    from ..common import run_in_flagged_child
+
     for w in pmap(_odd_work, ODD, chunk=4):
         res.merge_worker(w)
+    r = run_in_flagged_child("mc.checks.c16", "_flag_work", [[["1"], "list"], [["1", "2"], "list"], [["0", "1", "0.5"], "tuple"], [["1"] * 8, "list"]], ("-OO",))
+    for v in r["viol"]:
+        v["interpreter_flags"] = ["-OO"]
+    r["outcomes"] = ["-OO:" + o for o in r["outcomes"]]
+    res.merge_worker(r)
     vs = list(ew.small_vectors(3 if tier == "quick" else 4)) + ew.families() + [["1"] * n for n in (1, 2, 3, 4)]
     units = [(v, kind) for v in vs for kind in (("list", "tuple") if len(v) <= 3 or len(v) in (8, 64) else ("list",))]
     for w in pmap(_work, permuted(units, "c16"), chunk=16):
